@@ -75,6 +75,11 @@ def case(rep, drv, rnd, i, tier):
         if raise_at is not None:
             rep.count('python-predicate-raises')
     ops_py += [('query', n_, ('all',), a) for n_, a in queries]
+    n_main = len(ops_py)
+    if rnd.random() < 0.3:
+        # a cleared engine has no registered functions either: the all-compiled program loaded afterwards answers alone
+        ops_py += [('clear',), ('load', 'combine', prog)] + [('query', n_, ('all',), a) for n_, a in queries]
+        rep.count('cleared-and-reloaded')
     # (1) the python variant agrees with the model (reference + compiled) of the same history
     v = scen.three_way(rep, drv, ops_py, 'case %d python variant' % i)
     rep.count('programs')
@@ -87,7 +92,7 @@ def case(rep, drv, rnd, i, tier):
         else:
             nq = len(queries)
             qa = [scen.norm(r) for r in ra[-nq:]]
-            qp = [scen.norm(r) for r in rp[-nq:]]
+            qp = [scen.norm(r) for r in rp[n_main - nq:n_main]]
             try:
                 cyc = drv.ask(R.scenario_model(ops_all, 'reference'))[1:]
             except common.ModelTimeout:
